@@ -421,3 +421,38 @@ package protocol
 //@   requires len(b) >= 18 && len(b) <= 1518 && be16(b, 12) == 33024 && be16(b, 16) == 34997
 //@   ensures err == nil
 //@   ensures err == nil ==> len(b2) == len(b) && bytes_eq(b2, 0, b, 0, len(b))
+
+// IGMPv3 instances (list lengths fixed by the lemma bodies, everything else symbolic)
+//@ func lemmaIGMPv3Query2(q, s1, s2) (d, err, b1, b2) [C09]
+//@   inlinecalls
+//@   modreach
+//@   unroll 4
+//@   modifies q.SourceAddresses, q.NumberOfSources
+//@   requires q != nil && len(q.GroupAddress) == 4 && len(s1) == 4 && len(s2) == 4 && q.RobustnessValue < 8 && q.Reserved == 0
+//@   ensures err == nil && d != nil
+//@   ensures err == nil ==> d.Type == q.Type && d.MaxResponseTime == q.MaxResponseTime && d.Checksum == q.Checksum && d.SuppressRouterProcessing == q.SuppressRouterProcessing && d.RobustnessValue == q.RobustnessValue && d.IntervalTime == q.IntervalTime && d.NumberOfSources == 2 && len(d.GroupAddress) == 4 && bytes_eq(d.GroupAddress, 0, q.GroupAddress, 0, 4)
+//@   ensures err == nil ==> len(d.SourceAddresses) == 2 && len(d.SourceAddresses[0]) == 4 && bytes_eq(d.SourceAddresses[0], 0, s1, 0, 4) && len(d.SourceAddresses[1]) == 4 && bytes_eq(d.SourceAddresses[1], 0, s2, 0, 4)
+//@   ensures err == nil ==> len(b1) == 20 && len(b2) == len(b1) && bytes_eq(b2, 0, b1, 0, len(b1))
+
+//@ func lemmaIGMPv3Record2(r, s1, s2, aux) (d, err, b1, b2) [C09]
+//@   inlinecalls
+//@   modreach
+//@   unroll 4
+//@   modifies r.SourceAddresses, r.NumberOfSources, r.AuxData, r.AuxDataLen
+//@   requires r != nil && len(r.MulticastAddress) == 4 && len(s1) == 4 && len(s2) == 4
+//@   ensures err == nil && d != nil
+//@   ensures err == nil ==> d.Type == r.Type && d.AuxDataLen == 1 && d.NumberOfSources == 2 && len(d.MulticastAddress) == 4 && bytes_eq(d.MulticastAddress, 0, r.MulticastAddress, 0, 4)
+//@   ensures err == nil ==> len(d.SourceAddresses) == 2 && len(d.SourceAddresses[0]) == 4 && bytes_eq(d.SourceAddresses[0], 0, s1, 0, 4) && len(d.SourceAddresses[1]) == 4 && bytes_eq(d.SourceAddresses[1], 0, s2, 0, 4) && len(d.AuxData) == 1 && d.AuxData[0] == aux
+//@   ensures err == nil ==> len(b1) == 20 && len(b2) == len(b1) && bytes_eq(b2, 0, b1, 0, len(b1))
+
+//@ func lemmaIGMPv3Report2(p, t1, t2, g1, g2, s1, s2, s3) (d, err, b1, b2) [C09]
+//@   inlinecalls
+//@   modreach
+//@   unroll 4
+//@   modifies p.GroupRecords, p.NumberOfGroups
+//@   requires p != nil && len(g1) == 4 && len(g2) == 4 && len(s1) == 4 && len(s2) == 4 && len(s3) == 4
+//@   ensures err == nil && d != nil
+//@   ensures err == nil ==> d.Type == p.Type && d.Checksum == p.Checksum && d.NumberOfGroups == 2 && len(d.GroupRecords) == 2
+//@   ensures err == nil ==> d.GroupRecords[0].Type == t1 && d.GroupRecords[0].NumberOfSources == 1 && len(d.GroupRecords[0].SourceAddresses) == 1 && bytes_eq(d.GroupRecords[0].SourceAddresses[0], 0, s1, 0, 4) && bytes_eq(d.GroupRecords[0].MulticastAddress, 0, g1, 0, 4)
+//@   ensures err == nil ==> d.GroupRecords[1].Type == t2 && d.GroupRecords[1].NumberOfSources == 2 && len(d.GroupRecords[1].SourceAddresses) == 2 && bytes_eq(d.GroupRecords[1].SourceAddresses[0], 0, s2, 0, 4) && bytes_eq(d.GroupRecords[1].SourceAddresses[1], 0, s3, 0, 4) && bytes_eq(d.GroupRecords[1].MulticastAddress, 0, g2, 0, 4)
+//@   ensures err == nil ==> len(b1) == 36 && len(b2) == len(b1) && bytes_eq(b2, 0, b1, 0, len(b1))
